@@ -1,11 +1,12 @@
-(* C11 proofs: find_breaking_changes over whole packages (model: Model/C11_apidiff.v).
+(* C11 proofs: find_breaking_changes over whole packages (model: Model/C11_apidiff.v, the code after the repairs of
+   C11-F1 cyclic targets skipped, C11-F2 seen_paths keyed on (old, new) pairs, C11-F3 empty __all__ honoured).
    Part A  every logged pair satisfies any relation closed under the traversal's steps (public member, alias target)
    Part B  silence: self comparison, compatibility extensions (added members, added optional keyword-only parameters,
            arbitrary changes outside the publicly reachable part)
    Part C  soundness: every report stems from a publicly reachable pair; a removed object is a public member of one
-   Part D  completeness modulo a consistent counterpart map (known gap C11-F2), with its refutation witness
-   Part E  unresolvable targets never raise; without cyclic targets the traversal is total; cyclic witness (C11-F1)
-   Part F  exit code; is_public vs its documented ladder (C11-F3) *)
+   Part D  completeness: every pair the traversal must visit is examined, its local incompatibilities are reported
+   Part E  no exception (unresolvable and cyclic targets are skipped) and termination with fuel = |old| * |new| + 1
+   Part F  exit code; is_public is its documented ladder *)
 From Coq Require Import List Arith Bool ZArith String Ascii Lia.
 From Verif Require Import Lib.Sexp Model.C10_kinds Gen.C10_tables Model.C10_diff Proofs.C10_diff Model.C11_apidiff.
 Import ListNotations.
@@ -70,7 +71,7 @@ Definition closed_target : Prop :=
 Definition closed : Prop := closed_member /\ closed_target.
 
 Definition ev_ok (e : ev) : Prop := R (fst (ev_pair e)) (snd (ev_pair e)).
-Definition good (rec : list nat -> nat -> nat -> res) : Prop :=
+Definition good (rec : list (nat * nat) -> nat -> nat -> res) : Prop :=
   forall seen i j s l, R i j -> rec seen i j = Ok s l -> Forall ev_ok l.
 
 Lemma mloop_good rec : closed -> good rec ->
@@ -85,8 +86,8 @@ Proof.
     assert (Hr : forall x, In x r -> In x (all_members oi)) by (intros x Hx; apply Hin; right; exact Hx).
     destruct (negb (is_public oi mo)) eqn:Hp; [apply IH; exact Hr|].
     destruct (lookup n (all_members nj)) as [m'|] eqn:Hl; [|apply IH; exact Hr].
-    destruct (rec seen m m') as [s1 l1| | |] eqn:Hrec; try discriminate.
-    destruct (mloop go rec oi (all_members nj) r s1) as [s2 l2| | |] eqn:Hloop; try discriminate.
+    destruct (rec seen m m') as [s1 l1| |] eqn:Hrec; try discriminate.
+    destruct (mloop go rec oi (all_members nj) r s1) as [s2 l2| |] eqn:Hloop; try discriminate.
     intros H. inversion H; subst. apply Forall_app. split.
     + apply (G seen m m' s1 l1); [|exact Hrec].
       apply negb_false_iff in Hp.
@@ -97,26 +98,24 @@ Qed.
 Lemma step_good rec : closed -> good rec -> good (step go gn rec).
 Proof.
   intros C G seen i j s l Rij. unfold step.
-  destruct (nmem i seen); [intros H; inversion H; subst; constructor|].
+  destruct (pmem i j seen); [intros H; inversion H; subst; constructor|].
   destruct (get go i) as [oi|] eqn:Hi; [|discriminate].
   destruct (get gn j) as [nj|] eqn:Hj; [|discriminate].
   assert (Hhead : ev_ok (EHead i j)) by exact Rij.
+  assert (Single : forall s0, Ok s0 [EHead i j] = Ok s l -> Forall ev_ok l).
+  { intros s0 H. inversion H; subst. constructor; [exact Hhead|constructor]. }
   destruct (is_alias oi || is_alias nj) eqn:Ha.
-  - destruct (tgt_of oi i) as [i'| |] eqn:Ti; try discriminate.
-    + destruct (tgt_of nj j) as [j'| |] eqn:Tj; try discriminate.
-      * destruct (rec (i :: seen) i' j') as [s1 l1| | |] eqn:Hrec; try discriminate.
-        intros H. inversion H; subst. constructor; [exact Hhead|].
-        apply (G (i :: seen) i' j' s l1); [|exact Hrec].
-        destruct C as [_ CT]. apply (CT i j oi nj i' j'); assumption.
-      * intros H. inversion H; subst. constructor; [exact Hhead|constructor].
-    + intros H. inversion H; subst. constructor; [exact Hhead|constructor].
-  - destruct (negb (okind_eqb (kind_of oi) (kind_of nj))).
-    + intros H. inversion H; subst. constructor; [exact Hhead|constructor].
-    + destruct (is_container oi).
-      * destruct (mloop go rec oi (all_members nj) (all_members oi) (i :: seen)) as [s1 l1| | |] eqn:Hl; try discriminate.
-        intros H. inversion H; subst. constructor; [exact Hhead|]. constructor; [exact Rij|].
-        apply (mloop_good rec C G i j oi nj Rij Hi Hj (all_members oi) (i :: seen) s l1); [auto|exact Hl].
-      * intros H. inversion H; subst. constructor; [exact Hhead|constructor].
+  - destruct (tgt_of oi i) as [i'| |] eqn:Ti; [|apply Single|apply Single].
+    destruct (tgt_of nj j) as [j'| |] eqn:Tj; [|apply Single|apply Single].
+    destruct (rec ((i, j) :: seen) i' j') as [s1 l1| |] eqn:Hrec; try discriminate.
+    intros H. inversion H; subst. constructor; [exact Hhead|].
+    apply (G ((i, j) :: seen) i' j' s l1); [|exact Hrec].
+    destruct C as [_ CT]. apply (CT i j oi nj i' j'); assumption.
+  - destruct (negb (okind_eqb (kind_of oi) (kind_of nj))); [apply Single|].
+    destruct (is_container oi); [|apply Single].
+    destruct (mloop go rec oi (all_members nj) (all_members oi) ((i, j) :: seen)) as [s1 l1| |] eqn:Hl; try discriminate.
+    intros H. inversion H; subst. constructor; [exact Hhead|]. constructor; [exact Rij|].
+    apply (mloop_good rec C G i j oi nj Rij Hi Hj (all_members oi) ((i, j) :: seen) s l1); [auto|exact Hl].
 Qed.
 
 Lemma tby_good : closed -> forall fuel, good (tby go gn fuel).
@@ -131,7 +130,7 @@ Proof.
   intros C fuel ri rj s l Rr. unfold fbc.
   destruct (get go ri) as [ro|] eqn:Hi; [|discriminate].
   destruct (get gn rj) as [rn|] eqn:Hj; [|discriminate].
-  destruct (mloop go (tby go gn fuel) ro (all_members rn) (all_members ro) []) as [s1 l1| | |] eqn:Hl; try discriminate.
+  destruct (mloop go (tby go gn fuel) ro (all_members rn) (all_members ro) []) as [s1 l1| |] eqn:Hl; try discriminate.
   intros H. inversion H; subst. constructor; [exact Rr|].
   apply (mloop_good _ C (tby_good C fuel) ri rj ro rn Rr Hi Hj (all_members ro) [] s l1); [auto|exact Hl].
 Qed.
@@ -365,43 +364,48 @@ Proof.
 Qed.
 
 (* ------------------------------------------------------------------------------------------------------------ *)
-(* Part D: completeness modulo a consistent counterpart map *)
-Fixpoint heads (l : list ev) : list nat :=
-  match l with [] => [] | EHead i _ :: r => i :: heads r | EMembers _ _ :: r => heads r end.
+(* Part D: completeness -- every pair the traversal must visit is examined (seen_paths holds (old, new) pairs) *)
+Fixpoint heads (l : list ev) : list (nat * nat) :=
+  match l with [] => [] | EHead i j :: r => (i, j) :: heads r | EMembers _ _ :: r => heads r end.
 Lemma heads_app a b : heads (a ++ b) = heads a ++ heads b.
 Proof. induction a as [|[i j|i j] r IH]; simpl; [reflexivity| |]; rewrite IH; reflexivity. Qed.
-Lemma in_heads l x : In x (heads l) <-> exists j, In (EHead x j) l.
+Lemma in_heads l i j : In (i, j) (heads l) <-> In (EHead i j) l.
 Proof.
-  induction l as [|[i j|i j] r IH]; simpl.
-  - split; [intros []|intros [j []]].
+  induction l as [|[a b|a b] r IH]; simpl.
+  - tauto.
   - split.
-    + intros [E|H]; [subst; exists j; left; reflexivity|]. apply IH in H. destruct H as [j' H]. exists j'. right. exact H.
-    + intros [j' [E|H]]; [inversion E; left; reflexivity|]. right. apply IH. exists j'. exact H.
+    + intros [E|H]; [inversion E; subst; left; reflexivity|right; apply IH; exact H].
+    + intros [E|H]; [inversion E; subst; left; reflexivity|right; apply IH; exact H].
   - split.
-    + intros H. apply IH in H. destruct H as [j' H]. exists j'. right. exact H.
-    + intros [j' [E|H]]; [discriminate|]. apply IH. exists j'. exact H.
+    + intros H. right. apply IH. exact H.
+    + intros [E|H]; [discriminate|apply IH; exact H].
 Qed.
-Lemma nmem_in x l : nmem x l = true -> In x l.
-Proof. unfold nmem. intros H. apply existsb_exists in H. destruct H as [y [Hy E]]. apply Nat.eqb_eq in E. subst. exact Hy. Qed.
+Lemma pmem_in i j l : pmem i j l = true -> In (i, j) l.
+Proof.
+  unfold pmem. intros H. apply existsb_exists in H. destruct H as [[a b] [Hy E]]. simpl in E.
+  apply andb_true_iff in E. destruct E as [E1 E2]. apply Nat.eqb_eq in E1. apply Nat.eqb_eq in E2. subst. exact Hy.
+Qed.
+Lemma in_pmem i j l : In (i, j) l -> pmem i j l = true.
+Proof. intros H. unfold pmem. apply existsb_exists. exists (i, j). split; [exact H|]. simpl. rewrite !Nat.eqb_refl. reflexivity. Qed.
 
 Section Closure.
 Variables go gn : store.
 
-Definition lc_target (s : list nat) (l : list ev) : Prop :=
+Definition lc_target (s : list (nat * nat)) (l : list ev) : Prop :=
   forall i j oi nj i' j', In (EHead i j) l -> get go i = Some oi -> get gn j = Some nj ->
-    is_alias oi || is_alias nj = true -> tgt_of oi i = TRes i' -> tgt_of nj j = TRes j' -> In i' s.
+    is_alias oi || is_alias nj = true -> tgt_of oi i = TRes i' -> tgt_of nj j = TRes j' -> In (i', j') s.
 Definition lc_members (l : list ev) : Prop :=
   forall i j oi nj, In (EHead i j) l -> get go i = Some oi -> get gn j = Some nj ->
     is_alias oi || is_alias nj = false -> okind_eqb (kind_of oi) (kind_of nj) = true -> is_container oi = true ->
     In (EMembers i j) l.
-Definition lc_scan (s : list nat) (l : list ev) : Prop :=
+Definition lc_scan (s : list (nat * nat)) (l : list ev) : Prop :=
   forall i j oi nj n m mo m', In (EMembers i j) l -> get go i = Some oi -> get gn j = Some nj ->
     In (n, m) (all_members oi) -> get go m = Some mo -> is_public oi mo = true ->
-    lookup n (all_members nj) = Some m' -> In m s.
-Definition log_closed (s : list nat) (l : list ev) : Prop := lc_target s l /\ lc_members l /\ lc_scan s l.
-Definition seen_spec (seen s : list nat) (l : list ev) : Prop := forall x, In x s <-> In x seen \/ In x (heads l).
-Definition good2 (rec : list nat -> nat -> nat -> res) : Prop :=
-  forall seen i j s l, rec seen i j = Ok s l -> seen_spec seen s l /\ In i s /\ log_closed s l.
+    lookup n (all_members nj) = Some m' -> In (m, m') s.
+Definition log_closed (s : list (nat * nat)) (l : list ev) : Prop := lc_target s l /\ lc_members l /\ lc_scan s l.
+Definition seen_spec (seen s : list (nat * nat)) (l : list ev) : Prop := forall x, In x s <-> In x seen \/ In x (heads l).
+Definition good2 (rec : list (nat * nat) -> nat -> nat -> res) : Prop :=
+  forall seen i j s l, rec seen i j = Ok s l -> seen_spec seen s l /\ In (i, j) s /\ log_closed s l.
 
 Lemma log_closed_mono s s' l : (forall x, In x s -> In x s') -> log_closed s l -> log_closed s' l.
 Proof.
@@ -429,7 +433,7 @@ Qed.
 Lemma mloop_good2 rec oi nms : good2 rec ->
   forall ms seen s l, mloop go rec oi nms ms seen = Ok s l ->
     seen_spec seen s l /\ log_closed s l /\
-    (forall n m mo m', In (n, m) ms -> get go m = Some mo -> is_public oi mo = true -> lookup n nms = Some m' -> In m s).
+    (forall n m mo m', In (n, m) ms -> get go m = Some mo -> is_public oi mo = true -> lookup n nms = Some m' -> In (m, m') s).
 Proof.
   intros G. induction ms as [|[n m] r IH]; intros seen s l; simpl.
   - intros H. inversion H; subst. split; [|split].
@@ -447,8 +451,8 @@ Proof.
       intros n0 m0 mo0 m0' [E|Hin] H1 H2 H3.
       - inversion E; subst. congruence.
       - apply (C n0 m0 mo0 m0'); assumption. }
-    destruct (rec seen m m') as [s1 l1| | |] eqn:Hrec; try discriminate.
-    destruct (mloop go rec oi nms r s1) as [s2 l2| | |] eqn:Hloop; try discriminate.
+    destruct (rec seen m m') as [s1 l1| |] eqn:Hrec; try discriminate.
+    destruct (mloop go rec oi nms r s1) as [s2 l2| |] eqn:Hloop; try discriminate.
     intros H. inversion H; subst.
     destruct (G seen m m' s1 l1 Hrec) as [A1 [I1 C1]].
     destruct (IH s1 s l2 Hloop) as [A2 [C2 S2]].
@@ -457,13 +461,13 @@ Proof.
     + intros x. rewrite heads_app. rewrite in_app_iff. rewrite (A2 x). rewrite (A1 x). tauto.
     + apply log_closed_app; [apply (log_closed_mono s1 s l1 M C1)|exact C2].
     + intros n0 m0 mo0 m0' [E|Hin] H1 H2 H3.
-      * inversion E; subst. apply M. exact I1.
+      * inversion E; subst. rewrite Hl in H3. inversion H3; subst. apply M. exact I1.
       * apply (S2 n0 m0 mo0 m0'); assumption.
 Qed.
 
 Lemma head_only_closed s i j oi nj :
   get go i = Some oi -> get gn j = Some nj ->
-  (is_alias oi || is_alias nj = true -> forall i' j', tgt_of oi i = TRes i' -> tgt_of nj j = TRes j' -> In i' s) ->
+  (is_alias oi || is_alias nj = true -> forall i' j', tgt_of oi i = TRes i' -> tgt_of nj j = TRes j' -> In (i', j') s) ->
   (is_alias oi || is_alias nj = false -> okind_eqb (kind_of oi) (kind_of nj) = true -> is_container oi = true -> False) ->
   log_closed s [EHead i j].
 Proof.
@@ -478,42 +482,41 @@ Qed.
 Lemma step_good2 rec : good2 rec -> good2 (step go gn rec).
 Proof.
   intros G seen i j s l. unfold step.
-  destruct (nmem i seen) eqn:Hseen.
+  destruct (pmem i j seen) eqn:Hseen.
   { intros H. inversion H; subst. split; [|split].
     - intros x. simpl. tauto.
-    - apply nmem_in. exact Hseen.
+    - apply pmem_in. exact Hseen.
     - apply log_closed_nil. }
   destruct (get go i) as [oi|] eqn:Hi; [|discriminate].
   destruct (get gn j) as [nj|] eqn:Hj; [|discriminate].
-  assert (Single : forall s0, s0 = i :: seen ->
-            log_closed s0 [EHead i j] -> seen_spec seen s0 [EHead i j] /\ In i s0 /\ log_closed s0 [EHead i j]).
-  { intros s0 E C. subst s0. split; [|split; [left; reflexivity|exact C]].
+  assert (Single : log_closed ((i, j) :: seen) [EHead i j] -> Ok ((i, j) :: seen) [EHead i j] = Ok s l ->
+            seen_spec seen s l /\ In (i, j) s /\ log_closed s l).
+  { intros C H. inversion H; subst. split; [|split; [left; reflexivity|exact C]].
     intros x. simpl. tauto. }
   destruct (is_alias oi || is_alias nj) eqn:Ha.
-  - destruct (tgt_of oi i) as [i'| |] eqn:Ti; try discriminate.
-    + destruct (tgt_of nj j) as [j'| |] eqn:Tj; try discriminate.
-      * destruct (rec (i :: seen) i' j') as [s1 l1| | |] eqn:Hrec; try discriminate.
+  - destruct (tgt_of oi i) as [i'| |] eqn:Ti.
+    + destruct (tgt_of nj j) as [j'| |] eqn:Tj.
+      * destruct (rec ((i, j) :: seen) i' j') as [s1 l1| |] eqn:Hrec; try discriminate.
         intros H. inversion H; subst.
-        destruct (G (i :: seen) i' j' s l1 Hrec) as [A [I C]].
+        destruct (G ((i, j) :: seen) i' j' s l1 Hrec) as [A [I C]].
         split; [|split].
         -- intros x. simpl. rewrite (A x). simpl. tauto.
         -- apply A. left. left. reflexivity.
         -- change (EHead i j :: l1) with ([EHead i j] ++ l1). apply log_closed_app; [|exact C].
            apply (head_only_closed s i j oi nj Hi Hj).
-           ++ intros _ i2 j2 E1 E2. rewrite Ti in E1. inversion E1; subst. exact I.
+           ++ intros _ i2 j2 E1 E2. rewrite Ti in E1. rewrite Tj in E2. inversion E1; inversion E2; subst. exact I.
            ++ intros E. congruence.
-      * intros H. inversion H; subst. apply Single; [reflexivity|].
-        apply (head_only_closed _ i j oi nj Hi Hj); [intros _ i2 j2 _ E; congruence|intros E; congruence].
-    + intros H. inversion H; subst. apply Single; [reflexivity|].
-      apply (head_only_closed _ i j oi nj Hi Hj); [intros _ i2 j2 E; congruence|intros E; congruence].
+      * apply Single. apply (head_only_closed _ i j oi nj Hi Hj); [intros _ i2 j2 _ E; congruence|intros E; congruence].
+      * apply Single. apply (head_only_closed _ i j oi nj Hi Hj); [intros _ i2 j2 _ E; congruence|intros E; congruence].
+    + apply Single. apply (head_only_closed _ i j oi nj Hi Hj); [intros _ i2 j2 E; congruence|intros E; congruence].
+    + apply Single. apply (head_only_closed _ i j oi nj Hi Hj); [intros _ i2 j2 E; congruence|intros E; congruence].
   - destruct (negb (okind_eqb (kind_of oi) (kind_of nj))) eqn:Hk.
-    + intros H. inversion H; subst. apply Single; [reflexivity|].
-      apply (head_only_closed _ i j oi nj Hi Hj); [intros E; congruence|].
+    + apply Single. apply (head_only_closed _ i j oi nj Hi Hj); [intros E; congruence|].
       intros _ E. apply negb_true_iff in Hk. congruence.
     + destruct (is_container oi) eqn:Hc.
-      * destruct (mloop go rec oi (all_members nj) (all_members oi) (i :: seen)) as [s1 l1| | |] eqn:Hl; try discriminate.
+      * destruct (mloop go rec oi (all_members nj) (all_members oi) ((i, j) :: seen)) as [s1 l1| |] eqn:Hl; try discriminate.
         intros H. inversion H; subst.
-        destruct (mloop_good2 rec oi (all_members nj) G (all_members oi) (i :: seen) s l1 Hl) as [A [C S]].
+        destruct (mloop_good2 rec oi (all_members nj) G (all_members oi) ((i, j) :: seen) s l1 Hl) as [A [C S]].
         split; [|split].
         -- intros x. simpl. rewrite (A x). simpl. tauto.
         -- apply A. left. left. reflexivity.
@@ -524,8 +527,7 @@ Proof.
            ++ intros i0 j0 oi0 nj0 [E|[E|[]]] H2 H3 H4 H5 H6; [|discriminate]. inversion E; subst. right. left. reflexivity.
            ++ intros i0 j0 oi0 nj0 n m mo m' [E|[E|[]]] H2 H3 H4 H5 H6 H7; [discriminate|]. inversion E; subst.
               rewrite Hi in H2. rewrite Hj in H3. inversion H2; inversion H3; subst. apply (S n m mo m'); assumption.
-      * intros H. inversion H; subst. apply Single; [reflexivity|].
-        apply (head_only_closed _ i j oi nj Hi Hj); [intros E; congruence|]. intros _ _ E. congruence.
+      * apply Single. apply (head_only_closed _ i j oi nj Hi Hj); [intros E; congruence|]. intros _ _ E. congruence.
 Qed.
 
 Lemma tby_good2 : forall fuel, good2 (tby go gn fuel).
@@ -541,7 +543,7 @@ Proof.
   unfold fbc.
   destruct (get go ri) as [ro|] eqn:Hi; [|discriminate].
   destruct (get gn rj) as [rn|] eqn:Hj; [|discriminate].
-  destruct (mloop go (tby go gn fuel) ro (all_members rn) (all_members ro) []) as [s1 l1| | |] eqn:Hl; try discriminate.
+  destruct (mloop go (tby go gn fuel) ro (all_members rn) (all_members ro) []) as [s1 l1| |] eqn:Hl; try discriminate.
   intros H. inversion H; subst.
   destruct (mloop_good2 _ ro (all_members rn) (tby_good2 fuel) (all_members ro) [] s l1 Hl) as [A [C S]].
   split; [|split].
@@ -556,92 +558,62 @@ Proof.
 Qed.
 End Closure.
 
-(* ---- the counterpart map ---- *)
-Lemma cp_get_in cp i j : cp_get cp i = Some j -> In (i, j) cp.
-Proof.
-  induction cp as [|[a b] r IH]; simpl; [discriminate|].
-  destruct (Nat.eqb a i) eqn:E.
-  - intros H. inversion H; subst. apply Nat.eqb_eq in E. subst. left. reflexivity.
-  - intros H. right. apply IH. exact H.
-Qed.
-Lemma onat_eqb_some a b : onat_eqb a (Some b) = true -> a = Some b.
-Proof. destruct a as [x|]; simpl; [|discriminate]. intros H. apply Nat.eqb_eq in H. subst. reflexivity. Qed.
-
-Lemma consistent_closed go gn cp : consistent go gn cp = true -> closed go gn (fun i j => cp_get cp i = Some j).
-Proof.
-  intros C. unfold consistent in C. rewrite forallb_forall in C.
-  assert (At : forall i j, cp_get cp i = Some j -> consistent_at go gn cp i j = true).
-  { intros i j H. apply (C (i, j)). apply cp_get_in. exact H. }
-  split.
-  - intros i j oi nj n m mo m' Rij Hi Hj Hin Hm Hp Hl.
-    specialize (At i j Rij). unfold consistent_at in At. rewrite Hi, Hj in At.
-    apply andb_true_iff in At. destruct At as [At _]. rewrite forallb_forall in At.
-    specialize (At (n, m) Hin). simpl in At. rewrite Hm, Hp, Hl in At. apply onat_eqb_some. exact At.
-  - intros i j oi nj i' j' Rij Hi Hj Ha Ti Tj.
-    specialize (At i j Rij). unfold consistent_at in At. rewrite Hi, Hj in At.
-    apply andb_true_iff in At. destruct At as [_ At]. rewrite Ha, Ti, Tj in At. apply onat_eqb_some. exact At.
-Qed.
-
 Section Complete.
 Variables go gn : store.
-Variable cp : list (nat * nat).
 Variables ri rj : nat.
 
-(* old objects the traversal must examine: reached from the root through public members of containers whose
-   counterpart is a container of the same kind, and through resolvable alias targets *)
-Inductive Reach : nat -> Prop :=
-| RC_root_member oi nj n m mo m' : get go ri = Some oi -> get gn rj = Some nj ->
+(* the pairs the comparison must examine: public members of the root, public members of a visited container whose
+   counterpart is a container of the same kind, resolvable targets of a visited pair with an alias on either side *)
+Inductive Visit : nat -> nat -> Prop :=
+| V_root_member oi nj n m mo m' : get go ri = Some oi -> get gn rj = Some nj ->
     In (n, m) (all_members oi) -> get go m = Some mo -> is_public oi mo = true ->
-    lookup n (all_members nj) = Some m' -> Reach m
-| RC_member i j oi nj n m mo m' : Reach i -> cp_get cp i = Some j -> get go i = Some oi -> get gn j = Some nj ->
+    lookup n (all_members nj) = Some m' -> Visit m m'
+| V_member i j oi nj n m mo m' : Visit i j -> get go i = Some oi -> get gn j = Some nj ->
     is_alias oi || is_alias nj = false -> okind_eqb (kind_of oi) (kind_of nj) = true -> is_container oi = true ->
     In (n, m) (all_members oi) -> get go m = Some mo -> is_public oi mo = true ->
-    lookup n (all_members nj) = Some m' -> Reach m
-| RC_target i j oi nj i' j' : Reach i -> cp_get cp i = Some j -> get go i = Some oi -> get gn j = Some nj ->
-    is_alias oi || is_alias nj = true -> tgt_of oi i = TRes i' -> tgt_of nj j = TRes j' -> Reach i'.
+    lookup n (all_members nj) = Some m' -> Visit m m'
+| V_target i j oi nj i' j' : Visit i j -> get go i = Some oi -> get gn j = Some nj ->
+    is_alias oi || is_alias nj = true -> tgt_of oi i = TRes i' -> tgt_of nj j = TRes j' -> Visit i' j'.
 
-Variables (fuel : nat) (s : list nat) (l : list ev).
-Hypothesis Hrun : fbc go gn fuel ri rj = Ok s l.
-Hypothesis Hcons : consistent go gn cp = true.
-Hypothesis Hroot : cp_get cp ri = Some rj.
-
-Lemma logged_pairs_cp e : In e l -> cp_get cp (fst (ev_pair e)) = Some (snd (ev_pair e)).
+Lemma visit_pubreach i j : Visit i j -> PubReach go gn ri rj i j.
 Proof.
-  intros He.
-  pose proof (fbc_log_closed go gn _ (consistent_closed go gn cp Hcons) fuel ri rj s l Hroot Hrun) as F.
-  rewrite Forall_forall in F. exact (F e He).
+  induction 1 as [oi nj n m mo m' Hi Hj Hin Hm Hp Hl
+                 |i j oi nj n m mo m' Hr IH Hi Hj Ha Hk Hcont Hin Hm Hp Hl
+                 |i j oi nj i' j' Hr IH Hi Hj Ha Ti Tj].
+  - apply (PR_member go gn ri rj ri rj oi nj n m mo m'); try assumption. apply PR_root.
+  - apply (PR_member go gn ri rj i j oi nj n m mo m'); assumption.
+  - apply (PR_target go gn ri rj i j oi nj i' j'); assumption.
 Qed.
 
-Lemma seen_logged m : In m s -> exists j, cp_get cp m = Some j /\ In (EHead m j) l.
+Variables (fuel : nat) (s : list (nat * nat)) (l : list ev).
+Hypothesis Hrun : fbc go gn fuel ri rj = Ok s l.
+
+Lemma seen_logged i j : In (i, j) s -> In (EHead i j) l.
 Proof.
   intros H. destruct (fbc_closed go gn fuel ri rj s l Hrun) as [A _].
-  apply A in H. destruct H as [[]|H]. apply in_heads in H. destruct H as [j H].
-  exists j. split; [|exact H]. apply (logged_pairs_cp (EHead m j) H).
+  apply A in H. destruct H as [[]|H]. apply in_heads. exact H.
 Qed.
 
-Lemma reach_logged c : Reach c -> exists j, cp_get cp c = Some j /\ In (EHead c j) l.
+Theorem visit_logged i j : Visit i j -> In (EHead i j) l.
 Proof.
   destruct (fbc_closed go gn fuel ri rj s l Hrun) as [A [[T [M S]] Rt]].
   induction 1 as [oi nj n m mo m' Hi Hj Hin Hm Hp Hl
-                 |i j oi nj n m mo m' Hr IH Hc Hi Hj Ha Hk Hcont Hin Hm Hp Hl
-                 |i j oi nj i' j' Hr IH Hc Hi Hj Ha Ti Tj].
+                 |i j oi nj n m mo m' Hr IH Hi Hj Ha Hk Hcont Hin Hm Hp Hl
+                 |i j oi nj i' j' Hr IH Hi Hj Ha Ti Tj].
   - apply seen_logged. apply (S ri rj oi nj n m mo m'); assumption.
-  - destruct IH as [j0 [Hc0 Hlog]]. rewrite Hc in Hc0. inversion Hc0; subst j0.
-    apply seen_logged. apply (S i j oi nj n m mo m'); try assumption. apply (M i j oi nj); assumption.
-  - destruct IH as [j0 [Hc0 Hlog]]. rewrite Hc in Hc0. inversion Hc0; subst j0.
-    apply seen_logged. apply (T i j oi nj i' j'); assumption.
+  - apply seen_logged. apply (S i j oi nj n m mo m'); try assumption. apply (M i j oi nj); assumption.
+  - apply seen_logged. apply (T i j oi nj i' j'); assumption.
 Qed.
 
-(* whatever is locally incompatible at a reached object is reported *)
-Theorem head_complete c j b : Reach c -> cp_get cp c = Some j -> In b (local go gn (EHead c j)) -> In b (breakages go gn l).
+(* whatever is locally incompatible at a visited pair is reported *)
+Theorem head_complete i j b : Visit i j -> In b (local go gn (EHead i j)) -> In b (breakages go gn l).
 Proof.
-  intros Hr Hc Hb. destruct (reach_logged c Hr) as [j0 [Hc0 Hlog]]. rewrite Hc in Hc0. inversion Hc0; subst j0.
-  unfold breakages. apply in_flat_map. exists (EHead c j). split; assumption.
+  intros Hv Hb. unfold breakages. apply in_flat_map. exists (EHead i j). split; [apply visit_logged; exact Hv|exact Hb].
 Qed.
 
 Definition Scanned (c j : nat) : Prop :=
   (c = ri /\ j = rj) \/
-  (Reach c /\ cp_get cp c = Some j /\
+  (Visit c j /\
    exists oi nj, get go c = Some oi /\ get gn j = Some nj /\ is_alias oi || is_alias nj = false /\
                  okind_eqb (kind_of oi) (kind_of nj) = true /\ is_container oi = true).
 
@@ -649,10 +621,9 @@ Theorem members_complete c j b : Scanned c j -> In b (local go gn (EMembers c j)
 Proof.
   intros Hs Hb. unfold breakages. apply in_flat_map. exists (EMembers c j). split; [|exact Hb].
   destruct (fbc_closed go gn fuel ri rj s l Hrun) as [A [[T [M S]] Rt]].
-  destruct Hs as [[E1 E2]|[Hr [Hc [oi [nj [Hi [Hj [Ha [Hk Hcont]]]]]]]]].
+  destruct Hs as [[E1 E2]|[Hv [oi [nj [Hi [Hj [Ha [Hk Hcont]]]]]]]].
   - subst. exact Rt.
-  - destruct (reach_logged c Hr) as [j0 [Hc0 Hlog]]. rewrite Hc in Hc0. inversion Hc0; subst j0.
-    apply (M c j oi nj); assumption.
+  - apply (M c j oi nj); try assumption. apply visit_logged. exact Hv.
 Qed.
 
 Theorem public_removal_reported c j oi nj n m mo :
@@ -666,11 +637,11 @@ Proof.
 Qed.
 
 Theorem rekinding_reported c j oi nj :
-  Reach c -> cp_get cp c = Some j -> get go c = Some oi -> get gn j = Some nj ->
+  Visit c j -> get go c = Some oi -> get gn j = Some nj ->
   is_alias oi = false -> is_alias nj = false -> kind_of oi <> kind_of nj ->
   In (BKind j) (breakages go gn l).
 Proof.
-  intros Hr Hc Hi Hj A1 A2 Hk. apply (head_complete c j); [exact Hr|exact Hc|].
+  intros Hv Hi Hj A1 A2 Hk. apply (head_complete c j); [exact Hv|].
   simpl. rewrite Hi, Hj. unfold local_head. rewrite A1, A2. simpl.
   destruct (okind_eqb (kind_of oi) (kind_of nj)) eqn:E.
   - exfalso. apply Hk. destruct (kind_of oi), (kind_of nj); simpl in E; try discriminate; reflexivity.
@@ -678,12 +649,12 @@ Proof.
 Qed.
 
 Theorem base_removed_reported c j oi nj im ob inh ms im' nb inh' ms' :
-  Reach c -> cp_get cp c = Some j -> get go c = Some oi -> get gn j = Some nj ->
+  Visit c j -> get go c = Some oi -> get gn j = Some nj ->
   nbody oi = BClass im ob inh ms -> nbody nj = BClass im' nb inh' ms' ->
   List.length nb < List.length ob ->
   In (BBase j) (breakages go gn l).
 Proof.
-  intros Hr Hc Hi Hj Bo Bn Hlen. apply (head_complete c j); [exact Hr|exact Hc|].
+  intros Hv Hi Hj Bo Bn Hlen. apply (head_complete c j); [exact Hv|].
   simpl. rewrite Hi, Hj. unfold local_head, is_alias, kind_of. rewrite Bo, Bn. simpl.
   assert (E : natlist_eqb nb ob = false).
   { destruct (natlist_eqb nb ob) eqn:E; [|reflexivity]. exfalso.
@@ -695,29 +666,28 @@ Proof.
 Qed.
 
 Theorem value_changed_reported c j oi nj ov nv :
-  Reach c -> cp_get cp c = Some j -> get go c = Some oi -> get gn j = Some nj ->
+  Visit c j -> get go c = Some oi -> get gn j = Some nj ->
   nbody oi = BAttribute ov -> nbody nj = BAttribute nv -> ov <> nv ->
   In (BValue j) (breakages go gn l).
 Proof.
-  intros Hr Hc Hi Hj Bo Bn Hv. apply (head_complete c j); [exact Hr|exact Hc|].
+  intros Hv Hi Hj Bo Bn Hne. apply (head_complete c j); [exact Hv|].
   simpl. rewrite Hi, Hj. unfold local_head, is_alias, kind_of. rewrite Bo, Bn. simpl.
   destruct (odef_eqb ov nv) eqn:E; [apply odef_eqb_eq in E; contradiction|]. left. reflexivity.
 Qed.
 
 Theorem parameter_breakage_reported c j oi nj os oret ns nret p :
-  Reach c -> cp_get cp c = Some j -> get go c = Some oi -> get gn j = Some nj ->
+  Visit c j -> get go c = Some oi -> get gn j = Some nj ->
   nbody oi = BFunction os oret -> nbody nj = BFunction ns nret -> In p (fdiff os ns) ->
   In (BParam j p) (breakages go gn l).
 Proof.
-  intros Hr Hc Hi Hj Bo Bn Hp. apply (head_complete c j); [exact Hr|exact Hc|].
+  intros Hv Hi Hj Bo Bn Hp. apply (head_complete c j); [exact Hv|].
   simpl. rewrite Hi, Hj. unfold local_head, is_alias, kind_of. rewrite Bo, Bn. simpl.
   apply in_or_app. left. apply in_map. exact Hp.
 Qed.
 End Complete.
 
-(* the statement without the consistency hypothesis is false of the faithful model: finding C11-F2.
-   old: pkg exports f, g (both re-exports of pkg.a.f), submodule a defines f and K;  new: g re-exports pkg.a.K.
-   The pair (old a.f, new a.K) is publicly reachable and re-kinded, yet nothing is reported because a.f is in seen. *)
+(* the former witness of finding C11-F2 (repaired: seen_paths holds pairs).  old: pkg exports f, g (both re-exports of
+   pkg.a.f), submodule a defines f and K;  new: g re-exports pkg.a.K.  The re-kinding is now reported. *)
 Definition f2_mod_a := mkNode "a" None (BModule None [] [("f", 4); ("K", 5)]).
 Definition f2_old : store :=
   [ mkNode "pkg" None (BModule (Some ["f"; "g"]) ["f"; "g"] [("f", 1); ("g", 2); ("a", 3)]);
@@ -727,92 +697,17 @@ Definition f2_new : store :=
   [ mkNode "pkg" None (BModule (Some ["f"; "g"]) ["f"; "g"] [("f", 1); ("g", 2); ("a", 3)]);
     mkNode "f" None (BAlias (TRes 4)); mkNode "g" None (BAlias (TRes 5)); f2_mod_a;
     mkNode "f" None (BFunction [] None); mkNode "K" None (BClass [] [] [] []) ].
+Example retargeted_reexport_reported : exists s l,
+  fbc f2_old f2_new (default_fuel f2_old f2_new) 0 0 = Ok s l /\ breakages f2_old f2_new l = [BKind 5].
+Proof. eexists. eexists. split; vm_compute; reflexivity. Qed.
 
-Theorem public_change_reported_refuted_F2 :
-  exists go gn ri rj fuel s l i j b,
-    wf_store go = true /\ wf_store gn = true /\ fbc go gn fuel ri rj = Ok s l /\
-    PubReach go gn ri rj i j /\ In b (local go gn (EHead i j)) /\ ~ In b (breakages go gn l).
-Proof.
-  exists f2_old, f2_new, 0, 0, (default_fuel f2_old).
-  eexists. eexists. exists 4, 5, (BKind 5).
-  split; [reflexivity|]. split; [reflexivity|]. split; [vm_compute; reflexivity|].
-  split; [|split].
-  - apply (PR_target f2_old f2_new 0 0 2 2 (mkNode "g" None (BAlias (TRes 4))) (mkNode "g" None (BAlias (TRes 5)))); try reflexivity.
-    apply (PR_member f2_old f2_new 0 0 0 0 (mkNode "pkg" None (BModule (Some ["f"; "g"]) ["f"; "g"] [("f", 1); ("g", 2); ("a", 3)]))
-             (mkNode "pkg" None (BModule (Some ["f"; "g"]) ["f"; "g"] [("f", 1); ("g", 2); ("a", 3)])) "g" 2
-             (mkNode "g" None (BAlias (TRes 4))) 2); try reflexivity.
-    + apply PR_root.
-    + simpl. right. left. reflexivity.
-  - vm_compute. left. reflexivity.
-  - vm_compute. intros [].
-Qed.
-(* and the same-path counterpart map is indeed inconsistent on the witness *)
-Example f2_gap_predicate_holds : consistent f2_old f2_new [(0,0);(1,1);(2,2);(3,3);(4,4);(5,5)] = false.
-Proof. vm_compute. reflexivity. Qed.
-
-(* ------------------------------------------------------------------------------------------------------------ *)
-(* Part E: exceptions and termination *)
-Section Total.
-Variables go gn : store.
-
-Lemma no_cyclic_get g i n : no_cyclic g = true -> get g i = Some n -> nbody n <> BAlias TCyc.
-Proof.
-  intros C H. unfold no_cyclic in C. rewrite forallb_forall in C. specialize (C n (get_in g i n H)).
-  intros E. rewrite E in C. discriminate.
-Qed.
-Lemma tgt_of_not_cyc n i : nbody n <> BAlias TCyc -> tgt_of n i <> TCyc.
-Proof. unfold tgt_of. destruct (nbody n) as [| | | |t]; try discriminate. destruct t; congruence. Qed.
-
-Definition never_cyc (rec : list nat -> nat -> nat -> res) : Prop := forall seen i j, rec seen i j <> ErrCyclic.
-
-Lemma mloop_never_cyc rec p nms : never_cyc rec -> forall ms seen, mloop go rec p nms ms seen <> ErrCyclic.
-Proof.
-  intros G. induction ms as [|[n m] r IH]; intros seen; simpl; [discriminate|].
-  destruct (get go m) as [mo|]; [|discriminate].
-  destruct (negb (is_public p mo)); [apply IH|].
-  destruct (lookup n nms) as [m'|]; [|apply IH].
-  destruct (rec seen m m') as [s1 l1| | |] eqn:Hrec; try discriminate.
-  - destruct (mloop go rec p nms r s1) as [s2 l2| | |] eqn:Hl; try discriminate. exfalso. apply (IH s1). exact Hl.
-  - exfalso. apply (G seen m m'). exact Hrec.
-Qed.
-
-Lemma step_never_cyc rec : no_cyclic go = true -> no_cyclic gn = true -> never_cyc rec -> never_cyc (step go gn rec).
-Proof.
-  intros Co Cn G seen i j. unfold step.
-  destruct (nmem i seen); [discriminate|].
-  destruct (get go i) as [oi|] eqn:Hi; [|discriminate].
-  destruct (get gn j) as [nj|] eqn:Hj; [|discriminate].
-  pose proof (tgt_of_not_cyc oi i (no_cyclic_get go i oi Co Hi)) as To.
-  pose proof (tgt_of_not_cyc nj j (no_cyclic_get gn j nj Cn Hj)) as Tn.
-  destruct (is_alias oi || is_alias nj).
-  - destruct (tgt_of oi i) as [i'| |]; [|discriminate|congruence].
-    destruct (tgt_of nj j) as [j'| |]; [|discriminate|congruence].
-    destruct (rec (i :: seen) i' j') eqn:Hrec; try discriminate. exfalso. apply (G (i :: seen) i' j'). exact Hrec.
-  - destruct (negb (okind_eqb (kind_of oi) (kind_of nj))); [discriminate|].
-    destruct (is_container oi); [|discriminate].
-    destruct (mloop go rec oi (all_members nj) (all_members oi) (i :: seen)) eqn:Hl; try discriminate.
-    exfalso. apply (mloop_never_cyc rec oi (all_members nj) G (all_members oi) (i :: seen)). exact Hl.
-Qed.
-
-(* AliasResolutionError (TUnres) is always swallowed: only a cyclic target can abort the comparison *)
-Theorem unresolvable_never_raises : no_cyclic go = true -> no_cyclic gn = true ->
-  forall fuel ri rj, fbc go gn fuel ri rj <> ErrCyclic.
-Proof.
-  intros Co Cn fuel ri rj. unfold fbc.
-  destruct (get go ri) as [ro|]; [|discriminate]. destruct (get gn rj) as [rn|]; [|discriminate].
-  assert (G : never_cyc (tby go gn fuel)).
-  { induction fuel as [|f IH]; simpl; [intros seen i j; discriminate|]. apply step_never_cyc; assumption. }
-  destruct (mloop go (tby go gn fuel) ro (all_members rn) (all_members ro) []) eqn:Hl; try discriminate.
-  exfalso. apply (mloop_never_cyc _ ro (all_members rn) G (all_members ro) []). exact Hl.
-Qed.
-End Total.
-
-(* finding C11-F1: a publicly reachable cyclic re-export aborts the comparison of a package with itself *)
+(* the former witness of finding C11-F1 (repaired): a publicly reachable cyclic re-export is skipped *)
 Definition f1_store : store :=
   [ mkNode "pkg" None (BModule (Some ["x"]) ["x"] [("x", 1)]); mkNode "x" None (BAlias TCyc) ].
-Theorem cyclic_aborts_refuted :
-  exists g r, wf_store g = true /\ fbc g g (default_fuel g) r r = ErrCyclic /\ check_exit g g (fbc g g (default_fuel g) r r) <> 0.
-Proof. exists f1_store, 0. split; [reflexivity|]. split; [reflexivity|]. vm_compute. discriminate. Qed.
+Example cyclic_reexport_skipped : exists s l,
+  fbc f1_store f1_store (default_fuel f1_store f1_store) 0 0 = Ok s l /\ breakages f1_store f1_store l = [] /\
+  check_exit f1_store f1_store (Ok s l) = 0.
+Proof. eexists. eexists. split; [vm_compute; reflexivity|]. split; reflexivity. Qed.
 
 (* ------------------------------------------------------------------------------------------------------------ *)
 (* Part F: exit code; is_public against its documented ladder *)
@@ -820,30 +715,23 @@ Theorem exit_code_iff go gn r :
   check_exit go gn r = 0 <-> exists s l, r = Ok s l /\ breakages go gn l = [].
 Proof.
   unfold check_exit. split.
-  - destruct r as [s l| | |]; try discriminate.
+  - destruct r as [s l| |]; try discriminate.
     destruct (breakages go gn l) eqn:E; [|discriminate]. intros _. exists s, l. split; [reflexivity|exact E].
   - intros [s [l [E B]]]. subst r. rewrite B. reflexivity.
 Qed.
-Theorem exit_code_nonzero_iff_reported go gn s l :
-  check_exit go gn (Ok s l) <> 0 <-> breakages go gn l <> [].
-Proof.
-  unfold check_exit. destruct (breakages go gn l); split; intros H; try congruence; discriminate.
-Qed.
 
-Definition empty_all (p : node) : bool := match nbody p with BModule (Some []) _ _ => true | _ => false end.
-Theorem is_public_matches_doc_modulo_F3 p m : empty_all p = false -> is_public p m = is_public_doc p m.
+Theorem is_public_matches_doc p m : is_public p m = is_public_doc p m.
 Proof.
-  unfold empty_all, is_public, is_public_doc.
+  unfold is_public, is_public_doc, listed_in_all, defines_all.
   destruct (npublic m); [reflexivity|].
   destruct (negb (is_alias m) && is_module m && negb (starts_with "_" (nname m))); [reflexivity|].
   destruct (nbody p) as [ex im ms|im bs inh ms|sg ret|v|t]; try reflexivity.
-  destruct ex as [[|e es]|]; [discriminate|reflexivity|reflexivity].
+  destruct ex as [es|]; [|reflexivity]. destruct (smem (nname m) es); reflexivity.
 Qed.
-Theorem is_public_doc_refuted_F3 : exists p m, is_public p m = true /\ is_public_doc p m = false.
-Proof.
-  exists (mkNode "pkg" None (BModule (Some []) [] [("f", 1)])), (mkNode "f" None (BFunction [] None)).
-  split; reflexivity.
-Qed.
+(* the former witness of finding C11-F3 (repaired): under an empty __all__ an unlisted function is private *)
+Example empty_all_is_honoured :
+  is_public (mkNode "pkg" None (BModule (Some []) [] [("f", 1)])) (mkNode "f" None (BFunction [] None)) = false.
+Proof. reflexivity. Qed.
 
 (* the name predicates on the usual suspects (non-vacuity / regression examples) *)
 Example names_ok :
@@ -929,8 +817,8 @@ Proof.
 Qed.
 
 (* ------------------------------------------------------------------------------------------------------------ *)
-(* Part E': termination -- fuel = number of old objects + 1 is never exhausted; well-formed stores without cyclic
-   targets always yield a result (the seen_paths guard is the measure: every nested call marks a fresh old object) *)
+(* Part E: no exception and termination -- unresolvable and cyclic targets are skipped, and fuel = |old| * |new| + 1 is never
+   exhausted on well-formed stores (the seen_paths guard is the measure: every nested call marks a fresh (old, new) pair) *)
 Lemma filter_len_le {A} (p q : A -> bool) l : (forall x, p x = true -> q x = true) ->
   List.length (filter p l) <= List.length (filter q l).
 Proof.
@@ -952,25 +840,32 @@ Qed.
 
 Section Fuel.
 Variables go gn : store.
-Definition unseen (seen : list nat) : nat :=
-  List.length (filter (fun k => negb (nmem k seen)) (seq 0 (List.length go))).
+Definition all_pairs : list (nat * nat) := list_prod (seq 0 (List.length go)) (seq 0 (List.length gn)).
+Definition unseen (seen : list (nat * nat)) : nat :=
+  List.length (filter (fun x => negb (pmem (fst x) (snd x) seen)) all_pairs).
 
-Lemma in_nmem x l : In x l -> nmem x l = true.
-Proof. intros H. unfold nmem. apply existsb_exists. exists x. split; [exact H|apply Nat.eqb_refl]. Qed.
 Lemma unseen_mono seen s : (forall x, In x seen -> In x s) -> unseen s <= unseen seen.
 Proof.
-  intros H. unfold unseen. apply filter_len_le. intros x Hx.
+  intros H. unfold unseen. apply filter_len_le. intros [a b] Hx. simpl in *.
   apply negb_true_iff in Hx. apply negb_true_iff.
-  destruct (nmem x seen) eqn:E; [|reflexivity]. apply nmem_in in E. apply H in E. apply in_nmem in E. congruence.
+  destruct (pmem a b seen) eqn:E; [|reflexivity]. apply pmem_in in E. apply H in E. apply in_pmem in E. congruence.
 Qed.
-Lemma unseen_cons i seen : i < List.length go -> nmem i seen = false -> unseen (i :: seen) < unseen seen.
+Lemma unseen_cons i j seen : i < List.length go -> j < List.length gn -> pmem i j seen = false ->
+  unseen ((i, j) :: seen) < unseen seen.
 Proof.
-  intros Hi Hn. unfold unseen. apply (filter_len_lt _ _ _ i).
-  - intros x Hx. apply negb_true_iff in Hx. apply negb_true_iff. unfold nmem in *. simpl in Hx.
+  intros Hi Hj Hn. unfold unseen. apply (filter_len_lt _ _ _ (i, j)).
+  - intros [a b] Hx. simpl in *. apply negb_true_iff in Hx. apply negb_true_iff. unfold pmem in *. simpl in Hx.
     apply orb_false_iff in Hx. destruct Hx as [_ Hx]. exact Hx.
-  - apply in_seq. lia.
-  - rewrite Hn. reflexivity.
-  - unfold nmem. simpl. rewrite Nat.eqb_refl. reflexivity.
+  - unfold all_pairs. apply in_prod; apply in_seq; lia.
+  - simpl. rewrite Hn. reflexivity.
+  - simpl. unfold pmem. simpl. rewrite !Nat.eqb_refl. reflexivity.
+Qed.
+Lemma unseen_nil : unseen [] <= List.length go * List.length gn.
+Proof.
+  assert (L : forall (p : nat * nat -> bool) l, List.length (filter p l) <= List.length l).
+  { intros p l. induction l as [|a r IHl]; simpl; [lia|]. destruct (p a); simpl; lia. }
+  unfold unseen. pose proof (L (fun x => negb (pmem (fst x) (snd x) [])) all_pairs) as Hl.
+  unfold all_pairs in Hl at 2. rewrite prod_length, !seq_length in Hl. exact Hl.
 Qed.
 
 Lemma get_some g i : i < List.length g -> exists n, get g i = Some n.
@@ -989,10 +884,8 @@ Qed.
 
 Hypothesis Wo : wf_store go = true.
 Hypothesis Wn : wf_store gn = true.
-Hypothesis Co : no_cyclic go = true.
-Hypothesis Cn : no_cyclic gn = true.
 
-Definition total_rec (f : nat) (rec : list nat -> nat -> nat -> res) : Prop :=
+Definition total_rec (f : nat) (rec : list (nat * nat) -> nat -> nat -> res) : Prop :=
   forall seen i j, i < List.length go -> j < List.length gn -> unseen seen < f -> exists s l, rec seen i j = Ok s l.
 
 Lemma mloop_total f rec oi nj : total_rec f rec -> good2 go gn rec -> ids_ok gn nj = true ->
@@ -1016,27 +909,26 @@ Lemma tby_total : forall f, total_rec f (tby go gn f).
 Proof.
   induction f as [|f IH]; intros seen i j Hi Hj Hu; [lia|].
   simpl. unfold step.
-  destruct (nmem i seen) eqn:Hseen; [eauto|].
+  destruct (pmem i j seen) eqn:Hseen; [eauto|].
   destruct (get_some go i Hi) as [oi Hoi]. destruct (get_some gn j Hj) as [nj Hnj]. rewrite Hoi, Hnj.
   destruct (wf_node go i oi Wo Hoi) as [Io _]. destruct (wf_node gn j nj Wn Hnj) as [In_ _].
-  pose proof (unseen_cons i seen Hi Hseen) as Hlt.
-  assert (Hu1 : unseen (i :: seen) < f) by lia.
-  pose proof (tgt_of_not_cyc oi i (no_cyclic_get go i oi Co Hoi)) as To.
-  pose proof (tgt_of_not_cyc nj j (no_cyclic_get gn j nj Cn Hnj)) as Tn.
+  pose proof (unseen_cons i j seen Hi Hj Hseen) as Hlt.
+  assert (Hu1 : unseen ((i, j) :: seen) < f) by lia.
   destruct (is_alias oi || is_alias nj).
-  - destruct (tgt_of oi i) as [i'| |] eqn:Ti; [|eauto|congruence].
-    destruct (tgt_of nj j) as [j'| |] eqn:Tj; [|eauto|congruence].
-    destruct (IH (i :: seen) i' j' (ids_ok_target go oi i i' Io Hi Ti) (ids_ok_target gn nj j j' In_ Hj Tj) Hu1) as [s1 [l1 H]].
+  - destruct (tgt_of oi i) as [i'| |] eqn:Ti; [|eauto|eauto].
+    destruct (tgt_of nj j) as [j'| |] eqn:Tj; [|eauto|eauto].
+    destruct (IH ((i, j) :: seen) i' j' (ids_ok_target go oi i i' Io Hi Ti) (ids_ok_target gn nj j j' In_ Hj Tj) Hu1) as [s1 [l1 H]].
     rewrite H. eauto.
   - destruct (negb (okind_eqb (kind_of oi) (kind_of nj))); [eauto|].
     destruct (is_container oi); [|eauto].
-    destruct (mloop_total f (tby go gn f) oi nj IH (tby_good2 go gn f) In_ (all_members oi) (i :: seen)) as [s1 [l1 H]].
+    destruct (mloop_total f (tby go gn f) oi nj IH (tby_good2 go gn f) In_ (all_members oi) ((i, j) :: seen)) as [s1 [l1 H]].
     + intros k m Hin. apply (ids_ok_member go oi k m Io Hin).
     + exact Hu1.
     + rewrite H. eauto.
 Qed.
 
-Theorem fbc_total fuel ri rj : ri < List.length go -> rj < List.length gn -> List.length go < fuel ->
+(* on well-formed stores -- whatever the alias targets: resolved, unresolvable or cyclic -- the comparison completes *)
+Theorem fbc_total fuel ri rj : ri < List.length go -> rj < List.length gn -> List.length go * List.length gn < fuel ->
   exists s l, fbc go gn fuel ri rj = Ok s l.
 Proof.
   intros Hi Hj Hf. unfold fbc.
@@ -1044,9 +936,7 @@ Proof.
   destruct (wf_node go ri ro Wo Hro) as [Io _]. destruct (wf_node gn rj rn Wn Hrn) as [In_ _].
   destruct (mloop_total fuel (tby go gn fuel) ro rn (tby_total fuel) (tby_good2 go gn fuel) In_ (all_members ro) []) as [s1 [l1 H]].
   - intros k m Hin. apply (ids_ok_member go ro k m Io Hin).
-  - assert (L : forall (p : nat -> bool) l, List.length (filter p l) <= List.length l).
-    { intros p l. induction l as [|a r IHl]; simpl; [lia|]. destruct (p a); simpl; lia. }
-    unfold unseen. pose proof (L (fun k => negb (nmem k [])) (seq 0 (List.length go))) as Hl. rewrite seq_length in Hl. lia.
+  - pose proof unseen_nil. lia.
   - rewrite H. eauto.
 Qed.
 End Fuel.
@@ -1072,7 +962,6 @@ Definition ex_new_rm : store :=
   [ mkNode "pkg" None (BModule None [] [("K", 1); ("_p", 2)]);
     mkNode "K" None (BClass [] [] [] []);
     mkNode "_p" None (BAttribute (Some 1)) ].
-Definition ex_cp : list (nat * nat) := [(0, 0); (2, 1); (4, 2)].
 
 Example extension_example : forall fuel s l,
   fbc ex_old ex_new_ext fuel 0 0 = Ok s l -> breakages ex_old ex_new_ext l = [].
@@ -1100,16 +989,16 @@ Proof.
 Qed.
 
 Example removal_example : exists s l,
-  fbc ex_old ex_new_rm (default_fuel ex_old) 0 0 = Ok s l /\
+  fbc ex_old ex_new_rm (default_fuel ex_old ex_new_rm) 0 0 = Ok s l /\
   In (BRemoved 1) (breakages ex_old ex_new_rm l) /\ In (BRemoved 3) (breakages ex_old ex_new_rm l).
 Proof.
   eexists. eexists. split; [vm_compute; reflexivity|]. split.
-  - eapply (public_removal_reported ex_old ex_new_rm ex_cp 0 0 (default_fuel ex_old)) with (c := 0) (j := 0) (n := "f"); try reflexivity.
+  - eapply (public_removal_reported ex_old ex_new_rm 0 0 (default_fuel ex_old ex_new_rm)) with (c := 0) (j := 0) (n := "f"); try reflexivity.
     + left. split; reflexivity.
     + simpl. left. reflexivity.
-  - eapply (public_removal_reported ex_old ex_new_rm ex_cp 0 0 (default_fuel ex_old)) with (c := 2) (j := 1) (n := "m"); try reflexivity.
-    + right. split; [|split; [reflexivity|]].
-      * eapply (RC_root_member ex_old ex_new_rm ex_cp 0 0) with (n := "K"); try reflexivity. simpl. right. left. reflexivity.
+  - eapply (public_removal_reported ex_old ex_new_rm 0 0 (default_fuel ex_old ex_new_rm)) with (c := 2) (j := 1) (n := "m"); try reflexivity.
+    + right. split.
+      * eapply (V_root_member ex_old ex_new_rm 0 0) with (n := "K"); try reflexivity. simpl. right. left. reflexivity.
       * eexists. eexists. repeat split; reflexivity.
     + simpl. left. reflexivity.
 Qed.
